@@ -113,7 +113,9 @@ func Exec(p Prog, t xmlstream.TokenReadEncoder, inv *Invocation) error {
 			continue
 		}
 		for _, w := range o.Write {
-			if err := t.EncodeToken(w); err != nil {
+			// the session's encoder rewrites the attribute slice of the token it is given in
+			// place; hand it a copy so that the recorded program stays what was asked for
+			if err := t.EncodeToken(xml.CopyToken(w)); err != nil {
 				inv.WErr = append(inv.WErr, err.Error())
 			}
 		}
@@ -213,7 +215,7 @@ func ErrClass(err error) string {
 		return "clean"
 	case errors.As(err, &se):
 		return "se:" + se.Err
-	case errors.Is(err, ErrHandler), err == io.ErrUnexpectedEOF:
+	case errors.Is(err, ErrHandler), err == io.ErrUnexpectedEOF, strings.Contains(err.Error(), "received IQ with invalid payload"):
 		return "handler"
 	case errors.As(err, &syn):
 		return "decoder"
@@ -384,7 +386,7 @@ func WrittenObs(els []Elem) (string, string) {
 	return common.Join(s, "/"), cond
 }
 
-// JidMap renders the oracle for jid.Parse on every unqualified from attribute
+// JidMap renders the oracle for jid.Parse on every unqualified from / to attribute
 // of the start tokens in toks.
 func JidMap(toks []xml.Token) string {
 	seen := map[string]bool{}
@@ -395,7 +397,7 @@ func JidMap(toks []xml.Token) string {
 			continue
 		}
 		for _, a := range st.Attr {
-			if a.Name.Local != "from" || a.Name.Space != "" || seen[a.Value] {
+			if (a.Name.Local != "from" && a.Name.Local != "to") || a.Name.Space != "" || seen[a.Value] {
 				continue
 			}
 			seen[a.Value] = true
